@@ -110,7 +110,11 @@ class Scn:
         m = {"acc": {"id": self._id(), "status": state}}
         if target != "-":
             m["acc"]["user"] = PH[target]
-        canon = {"ok": "ok", "": "ok", "susp": "susp", "del": "del", "undef": "undef"}.get(state.lower(), "bad")
+        canon = {"ok": "ok", "susp": "susp", "del": "del", "undef": "undef"}.get(state.lower(), "bad")
+        if state == "":
+            # `msg.Acc.State != ""` is false: not a request to change the state at all (ErrMalformed)
+            self.req(name, m, tag="lifecycle")
+            return
         self.req(name, m, tok="acc:%s:%s:%s" % (name, target, canon), tag="lifecycle")
         tu = s["user"] if target == "-" else target
         if s["user"] == "ur" and tu and self.ustate.get(tu) not in (None, "none") and canon in ("ok", "susp", "del") and self.ustate[tu] != canon:
